@@ -411,7 +411,14 @@ func methodCalls(fn *ssa.Function) []orderedCall { return methodCallsD(fn, 0) }
 
 func methodCallsD(fn *ssa.Function, depth int) []orderedCall {
 	var out []orderedCall
+	var dead map[*ssa.BasicBlock]bool
+	if depth > 0 {
+		dead = infeasibleBlocks(fn)
+	}
 	for _, b := range fn.DomPreorder() {
+		if dead[b] {
+			continue
+		}
 		for _, ins := range b.Instrs {
 			c, ok := ins.(ssa.CallInstruction)
 			if !ok {
